@@ -18,6 +18,7 @@ mod ovl;
 mod pipeline;
 mod prepsync;
 mod hasher;
+mod caches;
 mod overflow;
 mod stress;
 mod triepos;
@@ -70,6 +71,9 @@ fn main() {
         "wal" => wal::run(seed, cases, &mut sink),
         "prepsync" => prepsync::run(seed, cases, &mut sink),
         "hasher" => hasher::run(seed, cases, &mut sink),
+        "caches" => caches::run(seed, cases, &mut sink),
+        "caches-db" => caches::run_db(seed, cases, &mut sink),
+        "caches-open0" => caches::run_open0(seed, cases, &mut sink),
         "overlay-index" => ovl::run(seed, cases, &mut sink),
         "bitops" => bitops::run(seed, cases, &mut sink),
         "bitops-node" => bitops::run_nodes(seed, cases, &mut sink),
